@@ -523,7 +523,10 @@ class World(EventDispatcher):
         # Iterate on a copy: a processor may add other processors during
         # its execution, which would shift the ones being iterated
         for processor in tuple(self._sorted_processors):
-            processor.process(dt)
+            # Skip the ones removed or replaced meanwhile by another
+            # processor, they shall not be called again
+            if self._processors.get(type(processor)) is processor:
+                processor.process(dt)
 
     def clear(self):
         """Clear the entire database.
